@@ -560,7 +560,7 @@ class Engine:
             return VFn(z3.Function("attr." + node.attr, Fn, Fn)(base.t))
         if isinstance(base, (VStr, VLabel, VFloat, VInt, VTuple, VFn)):
             return VConc("method:" + node.attr, (base,))
-        if isinstance(base, VMaybeNone) and isinstance(base.val, (VStr, VLabel, VFn)):
+        if isinstance(base, VMaybeNone) and isinstance(base.val, (VStr, VLabel, VFn, VRef)):
             self.oblige(st, "attribute access on a value that is not None", z3.Not(base.isnone), "safety", node)
             return VConc("method:" + node.attr, (base.val,))
         raise Unsupported("attribute %s of %r (line %d)" % (node.attr, base, node.lineno))
@@ -780,7 +780,7 @@ class Engine:
         b = self.ev(node.right, st)
         return self.binop(node.op, a, b, st, node)
 
-    def vite(self, c, a, b, st):
+    def vite(self, c, a, b, st, shared=False):
         """value-level if-then-else that also works for references to sequences (a merged sequence is allocated)"""
         c = z3.simplify(c)
         if z3.is_true(c):
@@ -793,8 +793,30 @@ class Engine:
             oa, ob = st.heap[a.addr], st.heap[b.addr]
             if isinstance(oa, HSeq) and isinstance(ob, HSeq):
                 ga, gb = oa.get, ob.get
-                return st.alloc(HSeq(z3.If(c, oa.len, ob.len), lambda k: self.vite(c, ga(k), gb(k), st), numpy=oa.numpy and ob.numpy, etype=oa.etype or ob.etype))
+                merged = HSeq(z3.If(c, oa.len, ob.len), lambda k: self.vite(c, ga(k), gb(k), st), numpy=oa.numpy and ob.numpy, etype=oa.etype or ob.etype)
+                if shared:
+                    # called lazily (from an element function): the merged, immutable view lives in the shared side table so that every later state can see it
+                    self._addr += 1
+                    Heap.shared[self._addr] = merged
+                    return VRef(self._addr)
+                return st.alloc(merged)
             raise Unsupported("if-then-else over heap objects of different kinds")
+        # optional references: None-ness and the referenced sequence are merged separately
+        def split(v):
+            if isinstance(v, VNone):
+                return z3.BoolVal(True), None
+            if isinstance(v, VMaybeNone) and isinstance(v.val, VRef):
+                return v.isnone, v.val
+            if isinstance(v, VRef):
+                return z3.BoolVal(False), v
+            return None, None
+        (na, ra), (nb, rb) = split(a), split(b)
+        if na is not None and nb is not None and (ra is not None or rb is not None) and (isinstance(a, (VRef, VMaybeNone)) or isinstance(b, (VRef, VMaybeNone))):
+            if ra is None:
+                ra = rb
+            if rb is None:
+                rb = ra
+            return VMaybeNone(z3.simplify(z3.If(c, na, nb)), self.vite(c, ra, rb, st, shared=shared))
         return ite(c, a, b)
 
     def is_np(self, v, st):
@@ -1440,6 +1462,10 @@ class Engine:
             g = o.get
             if o.numpy and not isinstance(v, (VRef,)):
                 v = self.coerce_elem(o, v)
+            if isinstance(v, (VRef, VMaybeNone, VNone)) and not o.numpy:
+                # a list of (optional) references: the element at a symbolic index is merged by reference kind
+                st.heap[base.addr] = HSeq(o.len, lambda k: self.vite(k == it, v, g(k), st, shared=True), numpy=o.numpy, etype=o.etype)
+                return
             st.heap[base.addr] = HSeq(o.len, lambda k: ite(k == it, v, g(k)), numpy=o.numpy, etype=o.etype)
             return
         raise Unsupported("store into heap object")
@@ -1541,7 +1567,7 @@ class Engine:
                 if o is r:
                     continue
                 if isinstance(o, HSeq) and isinstance(r, HSeq):
-                    r = HSeq(z3.If(c, o.len, r.len), (lambda k, c=c, g1=o.get, g2=r.get: ite(c, g1(k), g2(k))),
+                    r = HSeq(z3.If(c, o.len, r.len), (lambda k, c=c, g1=o.get, g2=r.get: self.vite(c, g1(k), g2(k), m, shared=True)),
                              numpy=o.numpy, etype=o.etype or r.etype)
                 elif isinstance(o, HRec) and isinstance(r, HRec) and set(o.fields) == set(r.fields):
                     nf = {}
